@@ -340,6 +340,9 @@ nanmean = Aggregation(
 def _var_finalize(sumsq, sum_, count, ddof=0):
     with np.errstate(invalid="ignore", divide="ignore"):
         result = (sumsq - (sum_**2 / count)) / (count - ddof)
+    # sumsq - sum_**2 / count rounds to a tiny negative number when the members of a group are (nearly) equal;
+    # a variance is never negative (np.maximum, unlike np.fmax, keeps a NaN result NaN)
+    result = np.maximum(result, 0)
     result[count <= ddof] = np.nan
     return result
 
